@@ -349,6 +349,94 @@ def run_literals(chk):
                 chk.cell(key, exp, rows[0], case, sub="literal", signature="lit|%s|%s" % (op, _diffclass(exp, rows[0])))
 
 
+# ---- compound assignment / update with the right operand written as a literal
+# (the table campaign feeds operands through variables; a compiler that special-cases
+# `x += 1`, `x *= 2`, `x -= 0` ... keys on the literal in the source)
+SMALL_LITERALS = ["0", "1", "2", "-1", "1.0", "0.5", "-0", "1e0", "0x1", "10", "'1'", "''", "'a'", "true", "false", "null", "undefined"]
+
+
+def _script_cmplit(op, form, left_src, right_src):
+    prelude, lv, rd, wrap = _target(form)
+    if form == "free":
+        prelude = prelude.replace("__APPLY__", "(x %s %s)" % (op, right_src))
+        body = "var r = wr(0, a);"
+    else:
+        body = "%s = a; var r = (%s %s %s);" % (lv, lv, op, right_src)
+    s = "var a = %s; %s %s var v = %s; var out = [typeof r, r, typeof v, v];" % (left_src, prelude, body, rd)
+    if wrap:
+        return "(function(){ %s return out; })()" % s
+    return s + " out"
+
+
+def eval_cmplit(tasks):
+    m = engine.load()
+    out = []
+    for op, form, ls, rs in tasks:
+        src = _script_cmplit(op, form, ls, rs)
+        try:
+            with pool.cpu_alarm(20):
+                r = m.Context(time_limit=10).eval(src)
+            out.append(("ok", _typed(r, 4)[0]) if isinstance(r, list) and len(r) == 4 else ("bad", repr(r)[:200]))
+        except pool.HarnessTimeout:
+            out.append(("err", {"cls": "HANG", "family": False}))
+        except Exception as e:
+            out.append(("err", engine.exc_info(e)))
+    return out
+
+
+def run_cmplit(chk):
+    import random  # deterministic selection only (seeded), not inside a property
+
+    rnd = random.Random(core.shard_seed(chk.seed, "C06", "cmplit"))
+    srcs = [s for _, s, _ in GRID]
+    lits = [s for s in SMALL_LITERALS if _lit_value(s) is not _MISSING]
+    tasks = []
+    # dense: every operator x target form x small literal, against a left operand of every type
+    typed_lefts = ["'a'", "'5'", "''", "7", "0.5", "true", "null", "undefined", "NaN", "-0"]
+    typed_lefts = [s for s in typed_lefts if _lit_value(s) is not _MISSING]
+    forms = TARGET_FORMS if chk.tier == "thorough" else [TARGET_FORMS[(chk.seed + j) % len(TARGET_FORMS)] for j in (0, 2, 4)]
+    for form in forms:
+        for op in P.COMPOUND:
+            for rs in lits:
+                for ls in typed_lefts:
+                    tasks.append((op, form, ls, rs))
+    n = 4000 if chk.tier == "quick" else 60000
+    for _ in range(n):
+        tasks.append((rnd.choice(P.COMPOUND), rnd.choice(TARGET_FORMS), rnd.choice(srcs), rnd.choice(srcs if rnd.random() < 0.5 else lits)))
+    batches = pool.chunks(tasks, 300)
+    res = pool.run(eval_cmplit, batches, timeout=600)
+    for batch, rb in zip(batches, res):
+        if isinstance(rb, (pool.HANG, pool.CRASH)):
+            raise engine.HarnessError("C06 cmplit batch %r" % rb)
+        for (op, form, ls, rs), (st, row) in zip(batch, rb):
+            a, b = _lit_value(ls), _lit_value(rs)
+            r = P.binop(op[:-1], a, b)
+            exp = [exp_pair(r), exp_pair(r)]
+            key = "cmplit|%s|%s|%s|%s" % (form, op, ls, rs)
+            chk.count()
+            if nontrivial_cell(a, b):
+                chk.nontrivial(key)
+            chk.classify("cmplit %s" % op)
+            case = {"kind": "cmplit", "op": op, "form": form, "left": ls, "right": rs}
+            if st != "ok":
+                actual = ["exception", row.get("cls"), row.get("name"), (row.get("message") or "")[:60]] if isinstance(row, dict) else ["bad", row]
+                chk.cell(key, exp, actual, case, sub="cmplit", signature="cmplit|%s|%s|exc" % (op, form))
+            else:
+                chk.cell(key, exp, row, case, sub="cmplit", signature="cmplit|%s|%s|%s" % (op, form, _diffclass(exp, row)))
+
+
+_EXTRA_LITS = {"1.0": 1.0, "1e0": 1.0, "0x1": 1.0, "10": 10.0, "2": 2.0, "0.5": 0.5, "'1'": "1", "'5'": "5", "'a'": "a", "''": "", "7": 7.0,
+               "-1": -1.0, "-0": -0.0, "0": 0.0, "1": 1.0}
+_MISSING = object()
+
+
+def _lit_value(src):
+    """The ES value of a literal's source text (grid values first); _MISSING if unknown."""
+    if src in SRC2VAL:
+        return SRC2VAL[src]
+    return _EXTRA_LITS.get(src, _MISSING)
+
+
 # ---- random expression trees (Hypothesis)
 def tree_to_js(t):
     k = t[0]
@@ -554,6 +642,7 @@ def main(chk):
             chk.violation("saved-replay|" + path, rec.get("case"), r["expected"], r["actual"], sub="replay")
     run_tables(chk)
     run_literals(chk)
+    run_cmplit(chk)
     run_trees(chk)
     chk.exhaustive = False
 
@@ -574,6 +663,11 @@ def replay(rec):
     kind = case["kind"]
     if kind == "lit":
         return replay({"case": {"src": case["src"]}, "expected": rec.get("expected")})
+    if kind == "cmplit":
+        st, row = eval_cmplit([(case["op"], case["form"], case["left"], case["right"])])[0]
+        r = P.binop(case["op"][:-1], _lit_value(case["left"]), _lit_value(case["right"]))
+        exp = [exp_pair(r), exp_pair(r)]
+        return {"fails": st != "ok" or row != exp, "expected": exp, "actual": row}
     task = (kind, case["op"], case["left"], [case["right"]]) + ((case["form"],) if case.get("form") else ())
     st, rows = eval_task(task)
     exp = expected_rows(task)[0]
